@@ -36,12 +36,20 @@ def who_may_write(chk, prog):
     key = "R1:who-may-write-link"
     chk.obligation(key, "only constructor/connect/disconnect store Terminal's partner link")
     term = prog.adt_by_name("Terminal")
-    fi = [i for i, f in enumerate(term["variants"][0]["fields"]) if f["ty"].get("k") == "adt" and f["ty"]["name"] == "Option"
-          and f["ty"]["args"][0].get("k") == "ref"]
-    if len(fi) != 1:
+    # the partner link, wherever the Terminal keeps it: every (struct, field) on the way to the Option<&RefCell<Terminal>> leaf
+    import layout
+    sim0 = S.Sim(prog)
+    tty = {"k": "adt", "did": term["did"], "name": "Terminal", "args": [({"k": "region"} if str(g).startswith("'") else {"k": "param", "name": str(g), "idx": i}) for i, g in enumerate(term.get("generics", []))]}
+    cands = [(n, t, p) for (n, t, p) in layout.leaves(sim0, tty, stop=("SettableData", "Option", "RefCell"))
+             if t.get("k") == "adt" and t["name"] == "Option" and t["args"] and t["args"][0].get("k") == "ref"]
+    if len(cands) != 1:
         raise AnchorMissing("Terminal partner-link field")
-    fi = fi[0]
-    sites = W.field_write_sites(prog, term["did"], fi)
+    sites = []
+    cur = tty
+    for step in cands[0][2]:
+        if cur.get("k") == "adt":
+            sites += W.field_write_sites(prog, cur["did"], step)
+        cur = layout.children(sim0, cur)[step][1]
     ok = True
     writers = set()
     def base_allowed(fn):
